@@ -155,6 +155,7 @@ func c03Triple(r *vx.Rand) {
 	}
 	s.mode = "2pc"
 	s.stores = 1
+	s.ageMs = 0 // an old transaction fails its age check before the commit point
 	// the primary's region holds at least two of the keys: one region, or a boundary above the two smallest keys
 	s.layout = nil
 	if len(s.keys) > 2 && r.Bool() {
